@@ -185,6 +185,7 @@ func AppendFloat(b []byte, f float64, prec int) []byte {
 		b[i] = '-'
 		i++
 	}
+	start := i
 
 	// big conversion loop, start at the end and move to the front
 	// initially print trailing zeros and remove them later on
@@ -245,10 +246,17 @@ func AppendFloat(b []byte, f float64, prec int) []byte {
 
 	// exponent
 	if exp != 0 {
-		if exp == 1 {
+		// zeros can only be appended instead of an exponent when the mantissa has no dot
+		hasDot := false
+		for k := start; k < i; k++ {
+			if b[k] == '.' {
+				hasDot = true
+			}
+		}
+		if exp == 1 && !hasDot {
 			b[i] = '0'
 			i++
-		} else if exp == 2 {
+		} else if exp == 2 && !hasDot {
 			b[i] = '0'
 			b[i+1] = '0'
 			i += 2
